@@ -194,8 +194,11 @@ StartEv(m) ==
 (***************************************************************************)
 (* Queue bookkeeping for trigger / is_full / is_buffered                    *)
 (* eclosing: events the monitor regards as finished while the event machine *)
-(* may still be winding them up; emptied at the first sign of life of a     *)
-(* later event (the machine is strictly sequential) and at quiescence.      *)
+(* may still be winding them up - or has not even started, when they end    *)
+(* without any observable sign and the monitor ran ahead; emptied when a    *)
+(* handler or variable callback of a later event is seen (the machine is    *)
+(* strictly sequential) and at quiescence.  A completed output unit is NOT  *)
+(* such a sign: it may belong to an event older than the silent ones.       *)
 (***************************************************************************)
 TriggerRet(m, c, t, ret) ==
   IF m.lost THEN m
@@ -281,7 +284,7 @@ FinalDone(m, u, body) ==
 
 Commit(m, h) ==
   LET u == IF h.who = "c" THEN Head(m.expC) ELSE Head(m.expE)
-      m1 == IF h.who = "c" THEN [m EXCEPT !.expC = Tail(@), !.H = {}, !.units = @ + 1] ELSE [m EXCEPT !.expE = Tail(@), !.H = {}, !.units = @ + 1, !.emaybe = 0, !.eclosing = {}]
+      m1 == IF h.who = "c" THEN [m EXCEPT !.expC = Tail(@), !.H = {}, !.units = @ + 1] ELSE [m EXCEPT !.expE = Tail(@), !.H = {}, !.units = @ + 1, !.emaybe = 0]
   IN IF u.fin THEN FinalDone(m1, u, h.body)
      ELSE IF h.who = "e" /\ u.last THEN StartEv(EvDone(m1))
      ELSE m1
